@@ -38,7 +38,7 @@ PROP = {
                       "forwarding node whose allocator is exhausted waits (WFwdWait, not exercised). Connection loss AFTER the halves "
                       "were connected is compared only up to 'no label' (a forwarding hop reports the failure to the side behind it as a "
                       "clean end-of-stream: classification, not wiring).",
-        "trivial_sig": r"^(remote:)?h1:n[01]:[a-z]*$",
+        "trivial_sig": r"^(remote:)?h1:n[01](:il)?$",
         "rule": "cases from one PRNG (VERIF_SEED): 1-3 hops, 0-8 channels of the six kinds, each sending its sender half, its receiver "
                 "half or both (in either order, in one or two consecutive values), 15% of the single halves with version skew (ignored "
                 "by the far end / request lost), 30% of the mpsc channels with an item queued before the hand-over, port limits at "
